@@ -135,31 +135,31 @@ type TImplicit struct {
 }
 
 type TTagged struct {
-	Id string  `sql:",primary"`
-	A  CBin    `sql:",binary"`
-	Ap *CBin   `sql:",binary"`
-	B  CText   `sql:",string"`
-	Bp *CText  `sql:",string"`
-	J  int64   `sql:",json"`
-	Jp *int64  `sql:",json"`
-	Jb bool    `sql:",json"`
-	Ju uint16  `sql:",json"`
-	Ss string  `sql:",string"`
-	Bb []byte  `sql:",binary"`
-	Ji *int8   `sql:",json"`
+	Id string `sql:",primary"`
+	A  CBin   `sql:",binary"`
+	Ap *CBin  `sql:",binary"`
+	B  CText  `sql:",string"`
+	Bp *CText `sql:",string"`
+	J  int64  `sql:",json"`
+	Jp *int64 `sql:",json"`
+	Jb bool   `sql:",json"`
+	Ju uint16 `sql:",json"`
+	Ss string `sql:",string"`
+	Bb []byte `sql:",binary"`
+	Ji *int8  `sql:",json"`
 }
 
 type TMixed struct {
-	K1 int64  `sql:"key_one,primary"`
-	K2 string `sql:"key_two,primary"`
-	U  uint64
-	Up *uint32
-	F  *float64
-	S  *string
-	B  []byte
-	T  *time.Time
-	X  bool
-	V  CVal
+	K1      int64  `sql:"key_one,primary"`
+	K2      string `sql:"key_two,primary"`
+	U       uint64
+	Up      *uint32
+	F       *float64
+	S       *string
+	B       []byte
+	T       *time.Time
+	X       bool
+	V       CVal
 	skipped int
 	Gone    int `sql:"-"`
 }
